@@ -77,6 +77,21 @@ func main() {
 			continue
 		}
 		o := runCase(c)
+		// self-confirming, as for the adapters: report only what reproduces in 3 more executions
+		suspicious := func(o obs) bool {
+			return (answers != nil && answers[i] != o.canon(c)) || len(contract(c, o)) > 0
+		}
+		if suspicious(o) {
+			mon.Count("retried-cases")
+			for k := 0; k < 3; k++ {
+				if o2 := runCase(c); !suspicious(o2) {
+					mon.Count("retried-and-vanished")
+					mon.Count("retried-and-vanished:" + c.line() + " first=" + o.canon(c))
+					o = o2
+					break
+				}
+			}
+		}
 		if len(o.Left) > 0 {
 			leaks[c.fn()]++
 		}
